@@ -4,7 +4,7 @@ method calls / source bumps (every record carries its version) / zombie / deny /
 vanish / as_dict(attrs).  Reference: a per-block cache of first-read versions."""
 import errno
 
-from vf.harness import use_world, outcome, freeze, residue
+from vf.harness import use_world, outcome, freeze, residue, ModuleResidue
 from vf.simk.world import World, Mapping, Thread
 
 SRCS = ("stat", "status", "smaps", "statm")
@@ -65,6 +65,7 @@ class Exec:
         self.w = w
         self.v = dict.fromkeys(SRCS, 0)
         use_world(w)
+        self.modres = ModuleResidue([psutil, psutil._pslinux, psutil._common, psutil._psposix])
         self.setv()
         self.obj = psutil.Process(cfg.pid)
         self.cms = []           # stack of entered context managers
@@ -436,7 +437,7 @@ class Exec:
                 # any per-object memory the hand-written part does not know about is kept concretely
                 "rest": residue(o, ("_pid", "_gone", "_pid_reused", "_name", "_hash", "_cache", "_exitcode", "_ident", "_create_time",
                                     "_proc", "_lock", "_last_proc_cpu_times", "_last_sys_cpu_times", "_exe")),
-                "exe": o._exe is not None,
+                "exe": o._exe is not None, "modules": self.modres.diff(),
                 "prest": residue(o._proc, ("pid", "_cache", "_procfs_path", "_name")), "pname": o._proc._name is not None}
 
 
